@@ -39,7 +39,74 @@ func (fv *FV) isDropped(f *types.Func) bool {
 	return false
 }
 
+// reflectDerefArg recognises reflect.ValueOf(x).Elem().Interface() and returns x.
+func (fv *FV) reflectDerefArg(call *ast.CallExpr) (ast.Expr, bool) {
+	isMethod := func(e ast.Expr, name string) (*ast.CallExpr, bool) {
+		c, ok := stripParens(e).(*ast.CallExpr)
+		if !ok {
+			return nil, false
+		}
+		sel, ok := stripParens(c.Fun).(*ast.SelectorExpr)
+		if !ok || sel.Sel.Name != name {
+			return nil, false
+		}
+		if f, ok := fv.info.ObjectOf(sel.Sel).(*types.Func); !ok || f.Pkg() == nil || f.Pkg().Path() != "reflect" {
+			return nil, false
+		}
+		return c, true
+	}
+	c1, ok := isMethod(call, "Interface")
+	if !ok || len(c1.Args) != 0 {
+		return nil, false
+	}
+	c2, ok := isMethod(c1.Fun.(*ast.SelectorExpr).X, "Elem")
+	if !ok || len(c2.Args) != 0 {
+		return nil, false
+	}
+	c3, ok := isMethod(c2.Fun.(*ast.SelectorExpr).X, "ValueOf")
+	if !ok || len(c3.Args) != 1 {
+		return nil, false
+	}
+	return c3.Args[0], true
+}
+
+// evalReflectDeref models reflect.ValueOf(x).Elem().Interface() for x of an opaque interface sort: x must be non-nil
+// and hold a pointer (Elem panics otherwise); the result holds the pointee, with the pointee's dynamic type. Only the
+// pointer types already boxed into that interface sort in this run are known; for any other the obligation fails.
+func (fv *FV) evalReflectDeref(st *State, call *ast.CallExpr, arg ast.Expr) Term {
+	v := fv.evalExpr(st, arg)
+	rs := fv.ss.Of(fv.info.TypeOf(call))
+	r := fv.fresh("reflectElem", rs)
+	if v.Sort.Kind != KOpaque || rs.Kind != KOpaque {
+		fv.note("reflect.ValueOf(x).Elem().Interface() on a non-opaque interface value abstracted (result unconstrained)")
+		return r
+	}
+	fv.assert(st, "reflect", tNot(tEq(v, Term{fv.ss.Zero(v.Sort), v.Sort})), call.Pos(), "reflect.Value.Elem on the zero Value (nil interface)")
+	dt := fv.ss.DynTypeFn(v.Sort)
+	var isPtr []Term
+	for _, bp := range append([]boxPair(nil), fv.ss.boxPairs[v.Sort.Name]...) {
+		if bp.from.Kind != KPtr || bp.from.Elem == nil || bp.goType == nil {
+			continue
+		}
+		pt, ok := bp.goType.Underlying().(*types.Pointer)
+		if !ok {
+			continue
+		}
+		_, un := fv.ss.BoxFn(bp.from, v.Sort, bp.goType)
+		fn, _ := fv.ss.BoxFn(bp.from.Elem, rs, pt.Elem())
+		has := Term{sx("=", sx(dt, v.S), fv.ss.StrConst("type:"+bp.tname)), SBool}
+		isPtr = append(isPtr, has)
+		pv := Term{sx(un, v.S), bp.from}
+		st.assume(tImp(has, tAnd(tNot(tEq(pv, ptrNil(bp.from))), tEq(r, Term{sx(fn, ptrDrf(pv).S), rs}))))
+	}
+	fv.assert(st, "reflect", tOr(isPtr...), call.Pos(), "reflect.Value.Elem: the interface holds a pointer (one of the pointer types stored into it)")
+	return r
+}
+
 func (fv *FV) evalCall(st *State, call *ast.CallExpr) []Term {
+	if arg, ok := fv.reflectDerefArg(call); ok {
+		return []Term{fv.evalReflectDeref(st, call, arg)}
+	}
 	fun := stripParens(call.Fun)
 	// conversion
 	if tv, ok := fv.info.Types[fun]; ok && tv.IsType() {
